@@ -37,6 +37,13 @@ def load_api(only_auth=False):
         return s
     api["sign_signable"] = sign_signable
 
+    def sign_sequence(payload, seeds):
+        s = S.wrap_as_signable(payload)
+        for sd in seeds:
+            S.sign_signable(s, C.PrivateKey.from_bytes(sd))
+        return s
+    api["sign_sequence"] = sign_sequence
+
     def sign_all_value(r, keyhex):
         d = tempfile.mkdtemp(prefix="cctw")
         try:
@@ -102,12 +109,15 @@ def load_api(only_auth=False):
 
     def build_delegating_metadata(n_ts, n_ex, ty, dl, ver, ts, ex):
         reads = ([n_ts] if ts is None else []) + ([n_ex] if ex is None else [])
-        return with_clock(reads, M.build_delegating_metadata, ty, dl, ver, ts, ex)
+        # optional arguments that are None are omitted, so that the function's own defaults are exercised
+        kw = {k: v for k, v in (("delegations", dl), ("timestamp", ts), ("expiration", ex)) if v is not None}
+        return with_clock(reads, lambda: M.build_delegating_metadata(ty, version=ver, **kw))
     api["build_delegating_metadata"] = build_delegating_metadata
 
     def build_root_metadata(n_ex, n_ts, ver, rk, rt, kk, kt, ts, ex):
         reads = ([n_ex] if ex is None else []) + ([n_ts] if ts is None else [])
-        return with_clock(reads, M.build_root_metadata, ver, rk, rt, kk, kt, ts, ex)
+        kw = {k: v for k, v in (("root_timestamp", ts), ("root_expiration", ex)) if v is not None}
+        return with_clock(reads, lambda: M.build_root_metadata(ver, rk, rt, kk, kt, **kw))
     api["build_root_metadata"] = build_root_metadata
 
     import cryptography.exceptions
@@ -131,6 +141,24 @@ def load_api(only_auth=False):
 
 
 MUTATORS = {"sign_signable"}
+SCRIBBLE = {"build_delegating_metadata", "build_root_metadata", "wrap_as_signable", "sign_sequence", "sign_all_value"}
+
+
+def scribble(v, depth=0):
+    """write into every container of a returned value: results must not alias state the library keeps"""
+    if depth > 6:
+        return
+    if isinstance(v, dict):
+        for x in list(v.values()):
+            scribble(x, depth + 1)
+        try:
+            v["__scribbled__"] = 0
+        except Exception:
+            pass
+    elif isinstance(v, list):
+        for x in v:
+            scribble(x, depth + 1)
+        v.append("__scribbled__")
 
 
 def main():
@@ -168,6 +196,8 @@ def main():
                 except Exception:
                     mut = 1
             fo.write("%s\t%s\t%d\n" % (cid, out, mut))
+            if out.startswith("O") and fn in SCRIBBLE:
+                scribble(r)
     sys.stdout.flush()
 
 
